@@ -67,7 +67,7 @@ class C20(Sim):
             "distinct = distinct (element-kind, op-kind multiset signature, interleaving hash); "
             "non-trivial = at least one union that merged two blocks or one pop of a non-empty queue")
     FAULT_KINDS = ["reject"]
-    PROBES = ["other_instance_in_between", "held_item_rechecked", "self_union", "union_absent", "repeat_add", "tie_pop", "inf_priority", "mixed_elements", "tuple_elements",
+    PROBES = ["caller_reuses_init_list", "other_instance_in_between", "held_item_rechecked", "self_union", "union_absent", "repeat_add", "tie_pop", "inf_priority", "mixed_elements", "tuple_elements",
               "component_query", "mapping_query", "merge", "constructor_duplicates", "same_item_pushed_again", "deep_tree_bulk_query"]
     QUICK_RUNS = 12000
     THOROUGH_RUNS = 2000000
@@ -132,6 +132,7 @@ class C20(Sim):
         if init and cfg.get("init_dups"):
             init = init + [init[i % len(init)] for i in cfg["init_dups"]]  # "repeated adds": also through the constructor's initial list
             self.probes["constructor_duplicates"] += 1
+        self.init_list = init  # the caller's own list: it stays the caller's (see op caller_list)
         self.uf = UnionFind(init) if init else UnionFind()
         self.ref = RefUF()
         for e in init:
@@ -175,6 +176,9 @@ class C20(Sim):
         present = [e for e in self.elts if e in self.ref.block]
         absent = [e for e in self.elts if e not in self.ref.block]
         E = lambda x: canon(x)
+        if c == "grower" and self.init_list and r.chance(0.04):
+            # the caller goes on using the list it handed to the constructor: appends to it, or builds another union-find from it and grows that
+            return {"c": c, "op": "caller_list", "how": r.choice(["append", "second_uf"]), "k": r.below(1 << 16)}
         if c in ("grower", "producer") and r.chance(0.06):
             # ANOTHER union-find / queue is created and used in the same process (kept alive): nothing of it may show in the ones under test
             return {"c": c, "op": "other_instance", "what": "uf" if c == "grower" else "pq", "n": r.randint(1, 6), "k": r.below(1 << 16)}
@@ -260,6 +264,8 @@ class C20(Sim):
             return not self.pending
         if op == "push":
             return True
+        if op == "caller_list":
+            return bool(self.init_list)
         if op == "getitem":
             return ev["i"] < self.ref.n
         return True
@@ -422,6 +428,23 @@ class C20(Sim):
             out = call(uf.connected, dec(ev["x"]), dec(ev["y"]))
             self._expect_reject(out, ValueError, op)
             res = "rejected"
+        elif op == "caller_list":
+            from mouette.utils import UnionFind
+            self.probes["caller_reuses_init_list"] += 1
+            if ev["how"] == "append":
+                self.init_list.append(("caller", ev["k"]))
+            else:
+                def second():
+                    u = UnionFind(self.init_list)
+                    u.add(("second", ev["k"]))
+                    u.union(("second", ev["k"]), ("second", ev["k"] + 1))
+                    return u
+                o_ = call(second)
+                if o_.ok:
+                    self.others.append(o_.value)
+            res = "caller-list-" + ev["how"]
+            query = False
+            self._uf_invariant(op)
         elif op == "other_instance":
             from mouette.utils import UnionFind, PriorityQueue
             self.probes["other_instance_in_between"] += 1
